@@ -73,7 +73,9 @@ def cases(tier, seed):
                 cfg = {'kind': kind, 'prog_seed': seed * 1000003 + 120000 + ci,
                        'seed': seed * 7919 + ci, 'family': '1d' if ci % 2 == 0 else '2d',
                        'fold': ci % 5 == 0, 'full_cost': ci % 2 == 1, 'train': train,
-                       'gumbel': False, 'hard': ci % 3 == 0}
+                       'gumbel': False, 'hard': ci % 3 == 0,
+                       # MPS: one convolution excluded from the search, plain params/ops metrics
+                       'mps_exclude': kind.startswith('mps') and (ci // 2) % 2 == 1}
                 cs.append({'cfg': cfg, 'seqs': allseq[i:i + chunk], 'seed': seed * 104729 + ci})
                 ci += 1
     return cs
